@@ -446,15 +446,17 @@ def patched(module, **names):
 
     @contextlib.contextmanager
     def cm():
-        old = {n: getattr(module, n, None) for n in names}
+        missing = object()
+        old = {n: module.__dict__.get(n, missing) for n in names}
         try:
             for n, v in names.items():
                 setattr(module, n, v)
             yield
         finally:
             for n, v in old.items():
-                if v is None and n not in module.__dict__:
-                    continue
-                setattr(module, n, v)
+                if v is missing:
+                    module.__dict__.pop(n, None)  # the name was not a module global before (e.g. a builtin)
+                else:
+                    setattr(module, n, v)
 
     return cm()
